@@ -216,21 +216,24 @@ def is_undef(t):
     return isinstance(t, list) and len(t) == 1 and t[0] == "undef"
 
 
-def compare_rows(chk, info, rows, df, tag=""):
-    """rows: list of spec rows (terms); df: DataFrame returned by relaxation.  -> (ok, nties)"""
+def compare_rows(chk, info, rows, df, tag="", nrows=None):
+    """rows: list of spec rows (terms), each for its lag row["k"]; df: DataFrame returned by relaxation (nrows
+    rows expected: one per lag 1..T-1).  -> (ok, nties)"""
+    nrows = len(rows) if nrows is None else nrows
     if not hasattr(df, "columns"):
         chk.violation(tag + "Result", {**info, "returned": repr(df)[:200]})
         return False, 0
     if list(df.columns) != COLS:
         chk.violation(tag + "Columns", {**info, "columns": list(df.columns)})
         return False, 0
-    if len(df) != len(rows):
+    if len(df) != nrows:
         chk.violation(tag + "Rows", {**info, "observed_rows": len(df)})
         return False, 0
     obs = {col: [float(x) for x in df[col].values] for col in COLS}
-    info = {**info, "observed": obs}
+    info = {**info, "observed": obs if nrows <= 12 else {col: v[:6] for col, v in obs.items()}}
     nt = 0
-    for k, row in enumerate(rows):
+    for row in rows:
+        k = row["k"] - 1
         if row["mtie"]:
             nt += 1
             continue
@@ -290,10 +293,11 @@ def relations(chk, info, case, df, tmpdir):
     """Clauses of C06 that relate two runs, checked on the code's own outputs; the spec decides
     when they apply (smallDisp, no tie) and its invariants InvWrapped / InvLog state them on the model."""
     c, variant = case["c"], case["variant"]
+    render = case.get("render", PLAIN)
     tie = any(r["mtie"] for r in case["rows"])
     # a displacement within 1e-6 of the slow/fast cut-off may be decided either way once the wrapped run has
     # gone through the (inexact) inverse cell matrix: Q and chi4 of such rows are not compared (DESIGN 3.3)
-    qtie_rows = [k for k, r in enumerate(case["rows"]) if r["qtie"]]
+    qtie_rows = [r["k"] - 1 for r in case["rows"] if r["qtie"]]
 
     def comparable(a, b):
         a, b = np.array(a, dtype=float), np.array(b, dtype=float)
@@ -308,14 +312,14 @@ def relations(chk, info, case, df, tmpdir):
     try:
         if variant == "lin" and c["mode"] == "x" and case["smallDisp"] and not tie:
             cu = dict(c, mode="xu")
-            du = call_relaxation(cu, case["tsq"], case["dt"], "lin", tmpdir)
+            du = call_relaxation(cu, case["tsq"], case["dt"], "lin", tmpdir, render=render)
             ua, wa = comparable(du.values, df.values)
             if ua.shape != wa.shape or not np.allclose(ua, wa, rtol=1e-9, atol=1e-9, equal_nan=True):
                 chk.violation("WrappedEqualsUnwrapped", {**info, "wrapped": df.values.tolist(), "unwrapped": du.values.tolist()})
                 return False
             chk.extra["relation_wrapped_equals_unwrapped"] = chk.extra.get("relation_wrapped_equals_unwrapped", 0) + 1
         if variant == "log" and not tie:
-            dl = call_relaxation(c, case["tsq"], case["dt"], "lin", tmpdir)
+            dl = call_relaxation(c, case["tsq"], case["dt"], "lin", tmpdir, render=render)
             a, b = dl.values[-1].copy(), df.values[-1].copy()
             a[3] = b[3] = 0.0            # chi4 of a single origin is 0 in both, up to rounding of <Q^2> - <Q>^2
             if abs(a[4]) < 1e-12 or abs(b[4]) < 1e-12:
@@ -335,11 +339,15 @@ def relations(chk, info, case, df, tmpdir):
 
 def replay_case(chk, case, tmpdir, csv=False, verbose=False):
     c, variant = case["c"], case["variant"]
-    info = {"dir": "A", "variant": variant, "c": c, "dt": case["dt"], "tsq": case["tsq"]}
+    render = case.get("render", PLAIN)
+    if case.get("kind") == "sess":
+        return replay_session(chk, case, tmpdir)
+    info = {"dir": "A", "variant": variant, "c": c, "dt": case["dt"], "tsq": case["tsq"], "render": render,
+            "kind": case.get("kind", "fam")}
     if variant in ("lin", "log"):
         out = os.path.join(tmpdir, "relax.csv") if csv else ""
         try:
-            df = call_relaxation(c, case["tsq"], case["dt"], variant, tmpdir, out)
+            df = call_relaxation(c, case["tsq"], case["dt"], variant, tmpdir, out, render=render)
         except Exception as e:
             chk.violation(f"raises:{type(e).__name__}", {**info, "error": str(e)[:300]})
             return False
@@ -353,10 +361,10 @@ def replay_case(chk, case, tmpdir, csv=False, verbose=False):
             print(df.to_string())
             for row in case["rows"]:
                 print({k: (ev(v) if isinstance(v, list) and not is_undef(v) else v) for k, v in row.items()})
-        ok, nties = compare_rows(chk, info, case["rows"], df, tag=variant + ":")
+        ok, nties = compare_rows(chk, info, case["rows"], df, tag=variant + ":", nrows=c["T"] - 1)
         for _ in range(nties):
             chk.tie()
-        if ok:
+        if ok and c["T"] * c["N"] <= 600:
             ok = relations(chk, info, case, df, tmpdir)
         if ok and csv:
             import pandas as pd
@@ -370,13 +378,13 @@ def replay_case(chk, case, tmpdir, csv=False, verbose=False):
     if len(case["tround"]) != 1 or case["tround"][0] != s4["nt"]:
         chk.tie()
         return None
-    info.update(nt=s4["nt"], tnum=case["tnum"], numofq=s4["numofq"], masks=s4["masks"])
+    info.update(nt=s4["nt"], tnum=case["tnum"], numofq=s4["numofq"], masks=s4["masks"] if c["N"] <= 12 else "...")
     if s4["empty"] or s4["qtie"] or s4["mtie"]:
         chk.tie()
         return None
     out = os.path.join(tmpdir, "s4.csv") if csv else ""
     try:
-        df = call_sq4(c, case["tsq"], case["dt"], case["tnum"], s4["numofq"], tmpdir, out)
+        df = call_sq4(c, case["tsq"], case["dt"], case["tnum"], s4["numofq"], tmpdir, out, render=render)
     except Exception as e:
         chk.violation(f"raises:{type(e).__name__}", {**info, "error": str(e)[:300]})
         return False
@@ -393,39 +401,164 @@ def replay_case(chk, case, tmpdir, csv=False, verbose=False):
     return ok
 
 
+class _Probe:
+    """Collects the verdict of a comparison without reporting it (used to tell a history-dependent result from a
+    result that is wrong on a fresh object as well)."""
+    def __init__(self):
+        self.hit = None
+
+    def violation(self, clause, case, finding_key=None):
+        if self.hit is None:
+            self.hit = (clause, case)
+
+
+def replay_session(chk, case, tmpdir):
+    """One call history of the specification (MC_Relaxation!DoCall) on ONE object per mobility type: both objects
+    are constructed first, from the same Snapshots objects; then the calls are made in the order of the
+    history and every result is compared with the expectation the spec states for that call's arguments."""
+    from PyMatterSim.dynamic.dynamics import Dynamics, LogDynamics
+    c, variant, render = case["c"], case["variant"], case.get("render", PLAIN)
+    cls = LogDynamics if variant == "log" else Dynamics
+    hist = [{"kind": cl["call"]["kind"], "obj": cl["call"]["obj"], "q": cl["q"], "useCond": cl["call"]["useCond"]}
+            for cl in case["calls"]]
+    tsq, dt = case["tsq"], case["dt"]
+    records, firsts = [], set()
+    for cl in case["calls"]:                         # the history as trace records (for --replay)
+        call = cl["call"]
+        records.append({"op": variant if call["kind"] == "relax" else "s4",
+                        "c": dict(c, cal=cl["cal"], q=cl["q"], hasCond=cl["hasCond"], cond=cl["cond"]),
+                        "dt": dt, "tsq": tsq, "nt": call["nt"], "numofq": call["numofq"], "tnum": case["tnum"],
+                        "render": render, "sid": call["obj"], "first": int(call["obj"] not in firsts), "share": 1})
+        firsts.add(call["obj"])
+    info = {"dir": "A", "variant": variant, "kind": "sess", "history": hist, "render": render, "records": records}
+    s4_ok = len(case["tround"]) == 1
+    other = {"slow": "fast", "fast": "slow"}
+    try:
+        with warnings.catch_warnings():
+            warnings.simplefilter("ignore")
+            kw = ctor_kwargs(c, tsq, tmpdir, render, dt=dt, force_dt=True)
+            pristine = {k: [sn.positions.copy() for sn in kw[k].snapshots] for k in ("xu_snapshots", "x_snapshots") if k in kw}
+            objs = {1: cls(cal_type=c["cal"], **kw), 2: cls(cal_type=other[c["cal"]], **kw)}
+    except Exception as e:
+        chk.violation(f"raises:{type(e).__name__}", {**info, "error": str(e)[:300], "where": "constructor"})
+        return False
+    ncmp = 0
+    for j, cl in enumerate(case["calls"]):
+        call, res = cl["call"], cl["result"]
+        cc = dict(c, cal=cl["cal"], q=cl["q"], hasCond=cl["hasCond"], cond=cl["cond"])
+        inf = {**info, "call_index": j, "call": hist[j]}
+        tag = f"sess:{variant}:"
+        try:
+            with warnings.catch_warnings():
+                warnings.simplefilter("ignore")
+                if call["kind"] == "relax":
+                    df = objs[call["obj"]].relaxation(**relax_kwargs(cc, variant, render))
+                    probe = _Probe()
+                    ok, nties = compare_rows(probe, inf, res["rows"], df, tag=tag)
+                    for _ in range(nties):
+                        chk.tie()
+                    if not ok:
+                        # the same call on a fresh object: is the result wrong, or does it depend on the history?
+                        fresh = call_relaxation(cc, tsq, dt, variant, tmpdir, render=render)
+                        p2 = _Probe()
+                        okf, _ = compare_rows(p2, inf, res["rows"], fresh, tag=tag)
+                        clause, cs = probe.hit
+                        if okf:
+                            clause = tag + "CallHistory:" + clause[len(tag):]
+                        chk.violation(clause, {**cs, "fresh_object_agrees": bool(okf)})
+                        return False
+                    ncmp += 1
+                else:
+                    s4 = res["s4"]
+                    if not s4_ok or case["tround"][0] != s4["nt"] or s4["empty"]:
+                        chk.tie()                    # not asserted, and an empty subset makes the routine raise: call not made
+                        continue
+                    df = objs[call["obj"]].sq4(**sq4_kwargs(cc, tsq, dt, case["tnum"], s4["numofq"], render))
+                    probe = _Probe()
+                    ok = compare_s4(probe, {**inf, "masks": s4["masks"]}, s4, df, tag=tag)
+                    if ok is None:
+                        chk.tie()
+                    elif not ok:
+                        fresh = call_sq4(cc, tsq, dt, case["tnum"], s4["numofq"], tmpdir, render=render)
+                        okf = compare_s4(_Probe(), inf, s4, fresh, tag=tag)
+                        clause, cs = probe.hit
+                        if okf:
+                            clause = tag + "CallHistory:" + clause[len(tag):]
+                        chk.violation(clause, {**cs, "fresh_object_agrees": bool(okf)})
+                        return False
+                    else:
+                        ncmp += 1
+        except Exception as e:
+            chk.violation(f"raises:{type(e).__name__}", {**inf, "error": str(e)[:300]})
+            return False
+    # the trajectory handed to the constructors is an input, not a scratch area
+    for k, frames in pristine.items():
+        for f, arr in enumerate(frames):
+            if not np.array_equal(kw[k].snapshots[f].positions, arr):
+                chk.violation(f"sess:{variant}:InputModified", {**info, "which": k, "frame": f})
+                return False
+    chk.extra["session_calls_compared"] = chk.extra.get("session_calls_compared", 0) + ncmp
+    return ncmp > 0
+
+
 # --------------------------------------------------------------------------
 # direction B
 # --------------------------------------------------------------------------
 
 NICE_L = [40, 50, 60, 80]
+ODD_L = [35, 45, 55, 75]            # with integer tilts the fractional denominator is odd: no exact half-cell tie
+DIAS = [[[1, 1], [1, 1], [1, 1]], [[1, 1], [2, 1], [3, 2]], [[3, 2], [1, 1], [2, 1]], [[1, 2], [2, 1], [1, 1]]]
+PALETTES = [[1, 2], [1, 2], [1, 3], [2, 3], [1, 2, 3], [3], [2, 1]]
+DTS = [[1, 500], [1, 100], [1, 4], [5, 2], [3, 10], [7, 10], [9, 1000], [3, 10000], [2, 1]]
 
 
-def gen_case(rng):
+def gen_render(rng):
+    return {"diaOrder": rng.choice(["asc", "desc", "rot"]), "diaDrop": rng.randint(0, 1), "diaInt": rng.randint(0, 1),
+            "mask": rng.choice(["bool", "bool", "int8", "int64", "strided", "fortran"]), "dtInt": rng.randint(0, 1),
+            "tsoff": rng.choice([0, 0, 3, 40])}
+
+
+def gen_case(rng, size="small"):
+    """size: "small" (T <= 12, N <= 12), "longT" (T = 40..70, N <= 4), "bigN" (N = 100..300, T = 2, 3)"""
     d = rng.choice([2, 3])
-    T = rng.choice([2, 3, 4, 5, 6, 8, 10, 12])
-    N = rng.randint(2, 12 if d == 2 else 8)
-    S = 10
-    if rng.random() < 0.5:
-        box = [rng.choice(NICE_L)] * d
+    if size == "longT":
+        T, N = rng.randint(40, 70), rng.randint(2, 4)
+    elif size == "bigN":
+        T, N = rng.choice([2, 3]), rng.randint(100, 300)
     else:
-        box = [rng.choice(NICE_L) for _ in range(d)]
+        T = rng.choice([2, 3, 4, 5, 6, 8, 10, 12])
+        N = rng.randint(2, 12 if d == 2 else 8)
+    S = 10
     mode = rng.choice(["xu", "x", "both"])
+    tri = mode == "x" and rng.random() < 0.4         # LAMMPS-style triclinic cell, tilts of either sign
+    lens = ODD_L if (tri and rng.random() < 0.6) else NICE_L
+    if rng.random() < 0.5:
+        box = [rng.choice(lens)] * d
+    else:
+        box = [rng.choice(lens) for _ in range(d)]
     if mode == "x":
         ppp = [1] * d
-        if rng.random() < 0.3:
-            ppp[rng.randrange(d)] = 0
+        if rng.random() < 0.4:                       # every non-zero mask occurs
+            ppp = [rng.randint(0, 1) for _ in range(d)]
             if not any(ppp):
-                ppp[0] = 1
+                ppp[rng.randrange(d)] = 1
     else:
         ppp = [rng.randint(0, 1) for _ in range(d)]
-    style = rng.choice(["diffusive", "ballistic", "arrested", "mixed"])
+    styles = ["diffusive", "ballistic", "arrested", "mixed"]
+    if mode == "x" and size == "small":
+        styles += ["halfbox", "halfbox"]             # steps up to half a cell vector: fractional displacements near +-1/2
+    style = rng.choice(styles) if size != "longT" else rng.choice(["slowdiff", "arrested", "mixed"])
     pos = [[rng.randrange(box[k]) for k in range(d)] for _ in range(N)]
     vel = [[rng.randint(-6, 6) for _ in range(d)] for _ in range(N)]
     xu = [[list(p) for p in pos]]
     for f in range(1, T):
         fr = []
         for i in range(N):
-            if style == "diffusive" or (style == "mixed" and i % 2 == 0):
+            if style == "halfbox":
+                st = [rng.randint(-(box[k] // 2) + 1, box[k] // 2 - 1) for k in range(d)]
+            elif style == "slowdiff" or (style == "mixed" and size == "longT" and i % 2 == 0):
+                st = [rng.randint(-2, 2) for _ in range(d)]      # T <= 70: |dx| <= 140 units, below the 32-bit limit of the exact comparison
+            elif style == "diffusive" or (style == "mixed" and i % 2 == 0):
                 st = [rng.randint(-8, 8) for _ in range(d)]
             elif style == "ballistic":
                 st = list(vel[i])
@@ -435,10 +568,10 @@ def gen_case(rng):
         xu.append(fr)
     wrap_axes = [1] * d if mode == "both" else ppp
     H = [[box[i] if i == j else 0 for j in range(d)] for i in range(d)]
-    if mode == "x" and rng.random() < 0.3:          # LAMMPS-style triclinic cell, tilts of either sign
+    if tri:
         for i in range(1, d):
             for j in range(i):
-                H[i][j] = rng.randint(-box[j] // 2, box[j] // 2)
+                H[i][j] = rng.choice([-1, 1]) * rng.randint(1, box[j] // 2)
 
     def wrap(v):
         # bring v into the cell along the wrapped axes (lower-triangular H: last axis first);
@@ -460,16 +593,18 @@ def gen_case(rng):
     nb = []
     for f in range(T):
         fr = []
+        cmax = rng.randint(1, min(3, N - 1))         # the largest coordination number differs between frames
         for i in range(N):
             others = [j + 1 for j in range(N) if j != i]
-            cn = rng.randint(1, min(3, len(others)))
+            cn = cmax if i == f % N else rng.randint(1, cmax)
             fr.append(rng.sample(others, cn))
         nb.append(fr)
     q = rng.choice([{"pi": 1, "n": 2, "d": 1}, {"pi": 1, "n": 1, "d": 1}, {"pi": 0, "n": 7, "d": 2},
-                    {"pi": 0, "n": 31, "d": 10}, {"pi": 1, "n": 5, "d": 2}])
+                    {"pi": 0, "n": 31, "d": 10}, {"pi": 1, "n": 5, "d": 2}, {"pi": 0, "n": 3, "d": 1}])
+    pal = rng.choice(PALETTES)
     c = {"d": d, "T": T, "N": N, "S": S, "H": H,
-         "ppp": ppp, "ts": None, "types": [rng.randint(1, 2) for _ in range(N)],
-         "dia": rng.choice([[[1, 1], [1, 1]], [[1, 1], [2, 1]], [[3, 2], [1, 1]], [[1, 2], [2, 1]]]),
+         "ppp": ppp, "ts": None, "types": [rng.choice(pal) for _ in range(N)],
+         "dia": rng.choice(DIAS),
          "a": rng.choice([[3, 10], [1, 2], [3, 4]]), "cal": rng.choice(["slow", "fast"]), "mode": mode,
          "xu": xu, "x": x, "hasCond": hasCond, "cond": cond, "hasNb": hasNb, "nb": nb,
          "nmax": rng.choice([30, 30, 2]), "q": q}
@@ -478,47 +613,109 @@ def gen_case(rng):
     return c
 
 
-def gen_record(rng, tmpdir):
-    c = gen_case(rng)
-    op = rng.choice(["lin", "lin", "log", "s4"])
-    if op == "s4" and any(c["H"][i][j] != 0 for i in range(c["d"]) for j in range(c["d"]) if i != j):
-        op = "lin"                                   # the S(q) routine assumes an orthogonal box
+def gen_session(rng, sid, size="small"):
+    """-> the records of one or two analysis objects built from one trajectory: a single call, or a history of
+    3-5 calls (other wavenumber, other / no selection, sq4 in between, a repeated call; possibly a second
+    object of the other mobility type on the same Snapshots objects, calls interleaved)."""
+    c = gen_case(rng, size)
     T = c["T"]
-    dt = rng.choice([[1, 500], [1, 100], [1, 4], [5, 2]])
-    if op == "log":
+    cls_op = rng.choice(["lin", "lin", "log"])
+    diag = all(c["H"][i][j] == 0 for i in range(c["d"]) for j in range(c["d"]) if i != j)
+    dt = rng.choice(DTS)
+    if cls_op == "log":
         tsq, cur = [], rng.choice([0, 7])
         for f in range(T):
             tsq.append(cur)
-            cur += max(1, 2 ** f // 2) * rng.choice([1, 3])
+            cur += max(1, min(2 ** f // 2, 4096)) * rng.choice([1, 3])
     else:
         tsq = list(c["ts"])
-    nt = rng.randint(1, T - 1) if rng.random() < 0.9 else 0
-    numofq = rng.choice([2, 4, 6]) if c["d"] == 2 else rng.choice([2, 2, 4])
-    rec = {"op": op, "c": c, "dt": dt, "tsq": tsq, "nt": nt, "numofq": numofq}
-    ctx = {}
-    dtv = dt[0] / dt[1]
-    try:
-        if op == "s4":
-            df = call_sq4(c, tsq, dt, 10 * nt + (rng.choice([-3, 0, 4]) if nt > 0 else 0), numofq, tmpdir)
-            ctx["df"] = df
-            rec["obs"] = {"rows": len(df) if hasattr(df, "columns") else -1, "tq": [], "tq_ok": 1, "x4zero": 0}
-        else:
-            df = call_relaxation(c, tsq, dt, op, tmpdir)
-            ctx["df"] = df
-            if list(df.columns) != COLS:
-                ctx["columns"] = list(df.columns)
-                rec["obs"] = {"rows": -1, "tq": [0] * (T - 1), "tq_ok": 0, "x4zero": 0}
-            else:
-                tobs = [float(v) for v in df["t"].values]
-                tq = [int(round(v / dtv)) for v in tobs]
-                okq = all(abs(tq[k] * dtv - tobs[k]) <= 1e-9 * (1 + abs(tobs[k])) for k in range(len(tobs)))
-                rec["obs"] = {"rows": len(df), "tq": (tq + [0] * T)[:T - 1], "tq_ok": int(okq),
-                              "x4zero": int(bool(np.all(df["X4_Qt"].values == 0.0)))}
-    except Exception as e:
-        # an empty mobile subset makes sq4 divide by zero: outside the property, decided by the spec (s4.empty)
-        ctx["raises"] = f"{type(e).__name__}: {str(e)[:200]}"
-        rec["obs"] = {"rows": -1 if op != "s4" else 0, "tq": [0] * (T - 1), "tq_ok": 0, "x4zero": 0}
-    return rec, ctx
+    render = gen_render(rng)
+    base = {"dt": dt, "tsq": tsq, "render": render}
+    other_q = rng.choice([{"pi": 1, "n": 3, "d": 2}, {"pi": 0, "n": 11, "d": 4}, {"pi": 1, "n": 1, "d": 2}])
+    cond2 = [list(m) for m in c["cond"][1:] + c["cond"][:1]]
+
+    def rec(op, obj, q=None, use=None):
+        cc = dict(c)
+        if obj == 2:
+            cc["cal"] = "fast" if c["cal"] == "slow" else "slow"
+        if q is not None:
+            cc["q"] = q
+        if use is not None:
+            cc["hasCond"] = 0 if use == 0 else 1
+            cc["cond"] = c["cond"] if use != 2 else cond2
+        nt = rng.randint(1, T - 1) if rng.random() < 0.9 else 0
+        if size == "longT":
+            nt = min(nt, rng.randint(1, 9))
+        numofq = rng.choice([2, 4, 6]) if c["d"] == 2 else rng.choice([2, 2, 4])
+        return {"op": op, "c": cc, **base, "nt": nt, "numofq": numofq,
+                "tnum": 10 * nt + (rng.choice([-3, 0, 0, 4]) if nt > 0 else 0),
+                "sid": 2 * sid + (obj - 1), "first": 0, "share": 2 * sid}
+    if size != "small" or rng.random() < 0.6:
+        op = cls_op if (cls_op == "log" or not diag or rng.random() < 0.7) else "s4"
+        recs = [rec(op, 1)]
+    else:
+        relax = cls_op
+        plan = rng.choice([
+            [(relax, 1, None, 0), (relax, 1, other_q, 1), (relax, 1, None, 0)],
+            [(relax, 1, other_q, 1), ("s4", 1, None, 1), (relax, 1, None, 2), (relax, 1, other_q, 1)],
+            [(relax, 1, None, 1), (relax, 2, None, 1), ("s4", 2, None, 0), (relax, 1, other_q, 2), (relax, 1, None, 1)],
+            [("s4", 1, None, 0), (relax, 2, other_q, 0), ("s4", 1, None, 1), (relax, 2, None, 2), ("s4", 1, None, 0)]])
+        recs = [rec(op, obj, q, use) for (op, obj, q, use) in plan if op != "s4" or (cls_op == "lin" and diag)]
+    seen = set()
+    for r in recs:
+        r["first"] = 0 if r["sid"] in seen else 1
+        seen.add(r["sid"])
+    return recs
+
+
+def execute(recs, tmpdir):
+    """Run the records through the library in order (objects are kept per sid; objects whose records name the same
+    `share` are constructed from the same Snapshots objects) and fill in rec["obs"].  -> ctxs"""
+    from PyMatterSim.dynamic.dynamics import Dynamics, LogDynamics
+    objs, shared, ctxs = {}, {}, []
+    for rec in recs:
+        c, op, T = rec["c"], rec["op"], rec["c"]["T"]
+        render = rec.get("render", PLAIN)
+        ctx = {}
+        dtv = rec["dt"][0] / rec["dt"][1]
+        tnum = rec.get("tnum", 10 * rec["nt"])
+        try:
+            with warnings.catch_warnings():
+                warnings.simplefilter("ignore")
+                if rec["first"] == 1 or rec["sid"] not in objs:
+                    key = rec.get("share", rec["sid"])
+                    if key not in shared:
+                        shared[key] = ctor_kwargs(c, rec["tsq"], tmpdir, render, dt=rec["dt"], force_dt=(op == "s4"))
+                    cls = LogDynamics if op == "log" else Dynamics
+                    objs[rec["sid"]] = cls(cal_type=c["cal"], **shared[key])
+                obj = objs[rec["sid"]]
+                if op == "s4":
+                    df = obj.sq4(**sq4_kwargs(c, rec["tsq"], rec["dt"], tnum, rec["numofq"], render))
+                    ctx["df"] = df
+                    rec["obs"] = {"rows": len(df) if hasattr(df, "columns") else -1, "tq": [], "tq_ok": 1, "x4zero": 0}
+                else:
+                    df = obj.relaxation(**relax_kwargs(c, op, render))
+                    ctx["df"] = df
+                    if not hasattr(df, "columns") or list(df.columns) != COLS:
+                        ctx["columns"] = list(getattr(df, "columns", []))
+                        rec["obs"] = {"rows": -1, "tq": [0] * (T - 1), "tq_ok": 0, "x4zero": 0}
+                    else:
+                        tobs = [float(v) for v in df["t"].values]
+                        tq = [int(round(v / dtv)) for v in tobs]
+                        okq = all(abs(tq[k] * dtv - tobs[k]) <= 1e-9 * (1 + abs(tobs[k])) for k in range(len(tobs)))
+                        rec["obs"] = {"rows": len(df), "tq": (tq + [0] * T)[:T - 1], "tq_ok": int(okq),
+                                      "x4zero": int(bool(np.all(df["X4_Qt"].values == 0.0)))}
+        except Exception as e:
+            # an empty mobile subset makes sq4 divide by zero: outside the property, decided by the spec (s4.empty)
+            ctx["raises"] = f"{type(e).__name__}: {str(e)[:200]}"
+            rec["obs"] = {"rows": -1 if op != "s4" else 0, "tq": [0] * (T - 1), "tq_ok": 0, "x4zero": 0}
+        ctxs.append(ctx)
+    return ctxs
+
+
+def trace_view(rec):
+    """What the trace specification reads of a record."""
+    return {k: rec[k] for k in ("op", "c", "dt", "tsq", "nt", "numofq", "sid", "first", "obs")}
 
 
 def validate_records(records, timeout=3000):
@@ -527,7 +724,7 @@ def validate_records(records, timeout=3000):
         path = os.path.join(tmp, "trace.ndjson")
         with open(path, "w") as f:
             for rec in records:
-                f.write(json.dumps(rec, separators=(",", ":")) + "\n")
+                f.write(json.dumps(trace_view(rec), separators=(",", ":")) + "\n")
         r = run_tlc("TraceRelaxation", dict(invariants=["Accepted", "TraceAlgDef"]), workers=1, timeout=timeout,
                     env={"TRACE_FILE": path}, keep_stdout=True)
         out = r.stdout
@@ -552,10 +749,19 @@ def validate_records(records, timeout=3000):
         shutil.rmtree(tmp, ignore_errors=True)
 
 
+def group_of(rec):
+    return rec.get("share", rec.get("sid"))
+
+
 def check_trace(chk, recs, ctxs, max_rejects=4, chunk=40):
-    """Validate records in chunks (one TLC process each, in parallel) and compare the printed terms."""
+    """Validate records in chunks (one TLC process each, in parallel; the records of one trajectory - one or two
+    objects, see gen_session - stay in one chunk) and compare the printed terms."""
     import concurrent.futures as cf
-    chunks = [(s, recs[s:s + chunk]) for s in range(0, len(recs), chunk)]
+    chunks, s0 = [], 0
+    for k in range(1, len(recs) + 1):
+        if k == len(recs) or (k - s0 >= chunk and group_of(recs[k]) != group_of(recs[k - 1])):
+            chunks.append((s0, recs[s0:k]))
+            s0 = k
 
     def one(args):
         start, part = args
@@ -572,8 +778,11 @@ def check_trace(chk, recs, ctxs, max_rejects=4, chunk=40):
             nrej += 1
             if nrej >= max_rejects:
                 break
-            todo = todo[idx + 1:]
-            offset += idx + 1
+            skip = idx + 1                           # the remaining calls on the objects of a rejected record are not judged
+            while skip < len(todo) and group_of(todo[skip]) == group_of(todo[idx]):
+                skip += 1
+            todo = todo[skip:]
+            offset += skip
         return res
 
     with cf.ThreadPoolExecutor(max_workers=min(common.JOBS, max(1, len(chunks)))) as ex:
@@ -589,7 +798,8 @@ def check_trace(chk, recs, ctxs, max_rejects=4, chunk=40):
                 raise MachineryError("TraceRelaxation accepted a record without printing its expectation")
             i = base + j
             rec, ctx = recs[i], ctxs[i]
-            info = {"dir": "B", "record": rec}
+            info = {"dir": "B", "record": rec, "call_number_on_object": p.get("call", 1),
+                    "earlier_records": [r for r in recs[max(0, i - 8):i] if group_of(r) == group_of(rec)]}
             if rec["op"] == "s4":
                 s4 = p["s4"]
                 if s4["empty"] or s4["qtie"] or s4["mtie"]:
@@ -600,33 +810,54 @@ def check_trace(chk, recs, ctxs, max_rejects=4, chunk=40):
                     continue
                 ok = compare_s4(chk, {**info, "masks": s4["masks"]}, s4, ctx["df"], tag="trace:s4:")
             else:
+                if "raises" in ctx:
+                    chk.violation("trace:raises:" + ctx["raises"].split(":")[0], {**info, "error": ctx["raises"]})
+                    continue
                 ok, nties = compare_rows(chk, info, p["rows"], ctx["df"], tag="trace:" + rec["op"] + ":")
                 for _ in range(nties):
                     chk.tie()
             if ok:
                 chk.ok(("B", i, rec["op"]), nontrivial=True)
+                if p.get("call", 1) > 1:
+                    chk.extra["trace_calls_on_used_objects"] = chk.extra.get("trace_calls_on_used_objects", 0) + 1
         if rej is not None:
             i = base + rej[0]
             clause = rej[1]
-            if clause == "BadInput":
-                raise MachineryError("the trace generator produced an ill-formed record")
+            if clause in ("BadInput", "BadSession"):
+                raise MachineryError(f"the trace generator produced an ill-formed record ({clause})")
             if "raises" in ctxs[i]:
                 clause = "raises:" + ctxs[i]["raises"].split(":")[0]
             ctx = {k: v for k, v in ctxs[i].items() if k != "df"}
-            chk.violation("trace:" + recs[i]["op"] + ":" + clause, {"dir": "B", "record": recs[i], **ctx})
+            chk.violation("trace:" + recs[i]["op"] + ":" + clause,
+                          {"dir": "B", "record": recs[i], **ctx,
+                           "earlier_records": [r for r in recs[max(0, i - 8):i] if group_of(r) == group_of(recs[i])]})
     return accepted
 
 
 def corrupt_one_field(chk, recs):
-    """Binding self-test of the trace spec: one observed time-axis entry of one ACCEPTED record is
-    changed; TraceRelaxation must reject exactly that record with clause TimeAxis."""
-    cand = [r for r in recs if r["op"] in ("lin", "log")][:3]
+    """Binding self-test of the trace spec on a SYNTHETIC trace: the inputs of three generated relaxation records
+    with observations that follow from the inputs alone (T - 1 rows, time axis = timestep differences, chi4 column
+    zero) - nothing recorded from the library goes in, so a library regression cannot turn this self-test into
+    a machinery error.  The specification must accept the trace as it is and, with one time-axis entry of the
+    second record changed, reject exactly that record with clause TimeAxis."""
+    cand = [r for r in recs if r["op"] in ("lin", "log") and r["c"]["T"] <= 12 and r["c"]["N"] <= 12][:3]
     if len(cand) < 3:
+        chk.extra["corrupt_one_field_rejected"] = "skipped: fewer than three small relaxation records"
         return
-    bad = json.loads(json.dumps(cand))
+    good = json.loads(json.dumps([{k: v for k, v in r.items() if k != "obs"} for r in cand]))
+    for j, r in enumerate(good):
+        T = r["c"]["T"]
+        r["sid"], r["first"] = 900000 + j, 1
+        r["obs"] = {"rows": T - 1, "tq": [r["tsq"][k + 1] - r["tsq"][0] for k in range(T - 1)], "tq_ok": 1, "x4zero": 1}
+    bad = json.loads(json.dumps(good))
     bad[1]["obs"]["tq"][-1] += 1
-    r, rej, _ = validate_records(bad)
+    import concurrent.futures as cf
+    with cf.ThreadPoolExecutor(max_workers=2) as ex:
+        (r0, rej0, _), (r, rej, _) = ex.map(validate_records, [good, bad])
+    chk.add_tlc(r0, "TraceRelaxation synthetic")
     chk.add_tlc(r, "TraceRelaxation corrupt-one-field")
+    if rej0 is not None:
+        raise MachineryError(f"the synthetic trace was rejected uncorrupted (got {rej0})")
     if rej is None or rej[0] != 1 or rej[1] != "TimeAxis":
         raise MachineryError(f"corrupted trace record was not rejected at that record (got {rej})")
     chk.extra["corrupt_one_field_rejected"] = True
@@ -641,17 +872,26 @@ def run(tier, replay=None):
     chk = Check("C06", tier)
     chk.rule = ("A: TLC runs the (end frame, lag) loop state machines of Relaxation.tla (lin / log / s4) on every case of the "
                 "MC_Relaxation scope (hashed families d=2,3 x T=2..5 x N=2,3 x {xu,x,both} x {slow,fast} x masks x neighbour "
-                "lists; exhaustive step sequences for two particles), invariants = clauses of C06; one case per (input, variant) "
-                "rendered to Snapshots + neighbour file and replayed into Dynamics.relaxation / LogDynamics.relaxation / "
-                "Dynamics.sq4, all columns of all rows compared. B: seeded random decimal trajectories T<=12, N<=12 recorded "
-                "from the real code; TraceRelaxation.tla carries the loop state, decides rows / time axis / log chi4 = 0 and "
-                "prints expected rows as terms.")
+                "lists; exhaustive step sequences for two particles; part ext: constant triclinic cells x every periodic mask "
+                "with fractional displacements near +-1/2, call histories of 5-6 calls on a slow and a fast object of one "
+                "trajectory (action DoCall, clause InvSession), T = 40..70 through the machine and T = 260 with the direct "
+                "operator RowsAt, N = 150 / 300), invariants = clauses of C06; one case per (input, variant) rendered - in the "
+                "rendering aux.render the scope picks: dict order, absent species, int diameters, mask dtype / layout, int dt, "
+                "large timestep labels - to Snapshots + neighbour file and replayed into Dynamics.relaxation / "
+                "LogDynamics.relaxation / Dynamics.sq4, all columns of all rows compared. B: seeded random decimal trajectories "
+                "(T<=12, N<=12; some T=40..70, some N=100..300; triclinic cells with near-half-cell steps; call histories on one "
+                "or two objects) recorded from the real code; TraceRelaxation.tla carries the loop state and the objects' "
+                "construction data, decides rows / time axis / log chi4 = 0 and prints expected rows as terms.")
     chk.assumptions = ["float comparison at 1e-9 (alpha2 1e-8, S4 2e-8: the routine rounds per-frame values to 1e-8)",
                        "rows with an exact half-box displacement (minimum-image tie) or a squared displacement within 1e-6 "
                        "(relative) of the squared cutoff are skipped and counted as ties",
                        "chi4 asserted only when every origin of the row selects the same number of particles; "
                        "alpha2 only when the row's MSD is non-zero; S4 only when no origin has an empty subset",
-                       "S4 is stated on the routine's default wave-vector set for a given numofq (the map qrange -> numofq is C04's)"]
+                       "S4 is stated on the routine's default wave-vector set for a given numofq (the map qrange -> numofq is C04's)",
+                       "cells are constant in time (each frame carries its own equal copy of the cell arrays); nothing is asserted "
+                       "for cells that change between frames",
+                       "a 0/1 selection array of integer type is a rendering of a boolean mask (docs: 'preferring the bool type'; "
+                       "sq4 converts with astype(bool))"]
     try:
         from PyMatterSim.dynamic.dynamics import Dynamics, LogDynamics  # noqa: F401
     except Exception as e:
@@ -664,37 +904,32 @@ def run(tier, replay=None):
             data = common.load_replay(replay)
             case = data["case"]
             print("clause:", data.get("clause"))
-            if case.get("dir") == "A":
-                rec = {"op": case["variant"], "c": case["c"], "dt": case["dt"], "tsq": case["tsq"],
-                       "nt": case.get("nt", 0), "numofq": case.get("numofq", 2)}
-                tnum = case.get("tnum", 10 * rec["nt"])
+            if case.get("dir") == "A" and case.get("kind") == "sess":
+                recs = json.loads(json.dumps(case["records"]))
+            elif case.get("dir") == "A":
+                recs = [{"op": case["variant"], "c": case["c"], "dt": case["dt"], "tsq": case["tsq"],
+                         "nt": case.get("nt", 0), "numofq": case.get("numofq", 2), "render": case.get("render", PLAIN),
+                         "tnum": case.get("tnum", 10 * case.get("nt", 0)), "sid": 0, "first": 1}]
             else:
-                rec = dict(case["record"])
-                tnum = 10 * rec["nt"]
-            ctx = {}
-            dtv = rec["dt"][0] / rec["dt"][1]
-            T = rec["c"]["T"]
-            try:
-                if rec["op"] == "s4":
-                    df = call_sq4(rec["c"], rec["tsq"], rec["dt"], tnum, rec["numofq"], tmpdir)
-                    rec["obs"] = {"rows": len(df) if hasattr(df, "columns") else -1, "tq": [], "tq_ok": 1, "x4zero": 0}
+                recs = json.loads(json.dumps(list(case.get("earlier_records", [])) + [case["record"]]))
+                for r in recs:
+                    r.setdefault("sid", 0)
+                    r.setdefault("first", 1)
+            for r in recs:
+                r.pop("obs", None)
+            ctxs = execute(recs, tmpdir)
+            for rec, ctx in zip(recs, ctxs):
+                print(f"--- call op={rec['op']} object={rec['sid']} first={rec['first']}")
+                if "raises" in ctx:
+                    print("library raised:", ctx["raises"])
                 else:
-                    df = call_relaxation(rec["c"], rec["tsq"], rec["dt"], rec["op"], tmpdir)
-                    tq = [int(round(float(v) / dtv)) for v in df["t"].values]
-                    rec["obs"] = {"rows": len(df), "tq": (tq + [0] * T)[:T - 1], "tq_ok": 1,
-                                  "x4zero": int(bool(np.all(df["X4_Qt"].values == 0.0)))}
-                ctx["df"] = df
-                print("observed:")
-                print(df.to_string() if hasattr(df, "to_string") else repr(df))
-            except Exception as e:
-                print("library raised:", type(e).__name__, e)
-                ctx["raises"] = f"{type(e).__name__}: {e}"
-                rec["obs"] = {"rows": -1 if rec["op"] != "s4" else 0, "tq": [0] * (T - 1), "tq_ok": 0, "x4zero": 0}
-            r, rej, printed = validate_records([rec])
-            if 1 in printed:
-                p = printed[1]
-                print("expected (spec):")
-                if rec["op"] == "s4":
+                    print("observed:")
+                    print(ctx["df"].to_string() if hasattr(ctx["df"], "to_string") else repr(ctx["df"]))
+            r, rej, printed = validate_records(recs)
+            for j in sorted(printed):
+                p = printed[j]
+                print(f"expected (spec), record {j}:")
+                if p["op"] == "s4":
                     print({"masks": p["s4"]["masks"], "empty": p["s4"]["empty"]})
                     for g in p["s4"]["groups"]:
                         print("  q =", ev(g["q"]), " S4 =", ev(g["S"]))
@@ -702,61 +937,87 @@ def run(tier, replay=None):
                     for row in p["rows"]:
                         print("  ", {k: (ev(v) if isinstance(v, list) and not is_undef(v) else v) for k, v in row.items()})
             if rej:
-                print("trace spec rejects the record, clause:", rej[1])
-            check_trace(chk, [rec], [ctx])
+                print("trace spec rejects record", rej[0] + 1, "clause:", rej[1])
+            check_trace(chk, recs, ctxs)
             return chk.finish()
 
         # ---- direction A
         nsh = 8
         seen = {"lin": 0, "log": 0, "s4": 0}
+        kinds = {}
         wrapped_eq = 0
+        near = {"tri_cases": 0, "pos": 0, "neg": 0, "masks": set(), "renders": set()}
+        parts = ("fam", "exh", "ext")
         import concurrent.futures as cf
-        pool = cf.ThreadPoolExecutor(max_workers=2 if tier == "quick" else 1)   # quick: both model runs start now; replay overlaps the second
+        pool = cf.ThreadPoolExecutor(max_workers=3 if tier == "quick" else 1)   # quick: the model runs start now; replay overlaps the later ones
         futs = {part: pool.submit(run_tlc_sharded, "MC_Relaxation",
                                   dict(constants={"Tier": tier, "Part": part, "SEED": common.SEED},
                                        invariants=INVS, properties=PROPS),
                                   nshards=nsh, timeout=5400)   # no -coverage: it disables TLC's LET caching (out of memory)
-                for part in ("fam", "exh")}
+                for part in ("ext", "exh", "fam")}
         pool.shutdown(wait=False)
-        for part in ("fam", "exh"):
+        for part in ("ext", "exh", "fam"):
             r = futs[part].result()
             require_model_ok(r, f"MC_Relaxation {part}")
             chk.add_tlc(r, f"MC_Relaxation {part}")
             if not r.cases:
                 raise MachineryError("no cases emitted")
             # every behaviour has one initial state and prints one case at its last state; all other
-            # transitions are Acc steps (the only action of the model)
+            # transitions are Acc / DoCall steps (the only actions of the model)
+            nsess_calls = sum(len(cs["calls"]) for cs in r.cases if cs.get("kind") == "sess")
             chk.coverage_actions["Init"] = chk.coverage_actions.get("Init", 0) + len(r.cases)
-            chk.coverage_actions["Acc"] = chk.coverage_actions.get("Acc", 0) + r.distinct - len(r.cases)
+            chk.coverage_actions["DoCall"] = chk.coverage_actions.get("DoCall", 0) + nsess_calls
+            chk.coverage_actions["Acc"] = chk.coverage_actions.get("Acc", 0) + r.distinct - len(r.cases) - nsess_calls
             t_rep = time.process_time()
             for j, case in enumerate(r.cases):
-                ok = replay_case(chk, case, tmpdir, csv=(j % 11 == 0))
+                ok = replay_case(chk, case, tmpdir, csv=(j % 11 == 0 and case.get("kind") != "sess"))
+                c = case["c"]
+                kind = case.get("kind", part)
+                if kind == "tri":
+                    near["tri_cases"] += 1
+                    near["pos"] += case["nearHalf"][0]
+                    near["neg"] += case["nearHalf"][1]
+                    near["masks"].add((c["d"], tuple(c["ppp"])))
+                rd = case.get("render", PLAIN)
+                near["renders"].add((rd["diaOrder"], rd["mask"], rd["dtInt"], rd["tsoff"] > 0))
                 if ok:
-                    seen[case["variant"]] += 1
-                    wrapped_eq += int(case["smallDisp"] and case["c"]["mode"] == "x")
-                    c = case["c"]
+                    if kind != "sess":
+                        seen[case["variant"]] += 1
+                    kinds[kind] = kinds.get(kind, 0) + 1
+                    wrapped_eq += int(case["smallDisp"] and c["mode"] == "x")
                     chk.ok(("A", part, j), nontrivial=True,
-                           sample={"variant": case["variant"], "d": c["d"], "T": c["T"], "N": c["N"], "mode": c["mode"],
-                                   "cal": c["cal"], "hasCond": c["hasCond"], "hasNb": c["hasNb"], "counts": case["counts"]})
+                           sample={"variant": case["variant"], "kind": kind, "d": c["d"], "T": c["T"], "N": c["N"], "mode": c["mode"],
+                                   "cal": c["cal"], "hasCond": c["hasCond"], "hasNb": c["hasNb"], "counts": case["counts"][:8]})
             chk.extra["replay_cpu_s_" + part] = round(time.process_time() - t_rep, 1)
         chk.exhaustive = True
         chk.extra["cases_ok_by_variant"] = seen
+        chk.extra["cases_ok_by_kind"] = kinds
         chk.extra["x_mode_cases_with_all_displacements_below_half_box"] = wrapped_eq
-        if not chk.violations and min(seen.values()) == 0:
-            raise MachineryError("scope is vacuous: a variant was never compared")
+        chk.extra["triclinic_scope"] = {"cases": near["tri_cases"], "periodic_masks": len(near["masks"]),
+                                        "fractional_displacements_above_0.35": near["pos"],
+                                        "fractional_displacements_below_-0.35": near["neg"]}
+        chk.extra["renderings_used"] = len(near["renders"])
+        if not chk.violations:
+            if min(seen.values()) == 0:
+                raise MachineryError("scope is vacuous: a variant was never compared")
+            if near["pos"] == 0 or near["neg"] == 0 or len(near["masks"]) < 10:
+                raise MachineryError("scope is vacuous: triclinic cases lack a periodic mask or near-half displacements of one sign")
+            if any(kinds.get(k, 0) == 0 for k in ("tri", "sess", "long")):
+                raise MachineryError(f"scope is vacuous: a kind of part ext was never compared ({kinds})")
 
         # ---- direction B
         rng = random.Random(common.SEED * 7919 + 6)
-        nrec = 90 if tier == "quick" else 1200
-        recs, ctxs = [], []
-        for _ in range(nrec):
-            rec, ctx = gen_record(rng, tmpdir)
-            recs.append(rec)
-            ctxs.append(ctx)
+        nsess = 50 if tier == "quick" else 700
+        recs = []
+        for sid in range(nsess):
+            size = "longT" if sid % 35 == 17 else "bigN" if sid % 35 == 5 else "small"
+            recs += gen_session(rng, sid, size)
+        ctxs = execute(recs, tmpdir)
         accepted = check_trace(chk, recs, ctxs, chunk=(15 if tier == "quick" else 80))
-        corrupt_one_field(chk, [recs[i] for i in accepted])
-        if chk.coverage_actions.get("Acc", 0) <= 0:
-            raise MachineryError("action Acc has zero coverage: the loop state machines were not exercised")
+        chk.extra["trace_records"] = len(recs)
+        corrupt_one_field(chk, recs)
+        if chk.coverage_actions.get("Acc", 0) <= 0 or chk.coverage_actions.get("DoCall", 0) <= 0:
+            raise MachineryError("an action has zero coverage: the loop / call state machines were not exercised")
         chk.samples.append({"trace_record": {"op": recs[0]["op"], "T": recs[0]["c"]["T"], "N": recs[0]["c"]["N"],
                                              "mode": recs[0]["c"]["mode"], "obs": recs[0]["obs"]}})
         return chk.finish()
